@@ -52,6 +52,9 @@ Record eopts := mk_eopts { o_name : bool; o_dtype : bool; o_class : bool; o_skip
    and the include_none flag handed to isna *)
 Record mcfg := mk_mcfg { m_left_other : bool; m_right_other : bool; m_include_none : bool }.
 Definition mcfg_correct : mcfg := mk_mcfg false true false.
+(* one mask configuration per place where the source builds a both-missing mask *)
+Record mcfgs := mk_mcfgs { c_tb : mcfg; c_series : mcfg; c_index : mcfg }.
+Definition mcfgs_correct : mcfgs := mk_mcfgs mcfg_correct mcfg_correct mcfg_correct.
 
 (* ------------------------------------------------------------------ observed containers *)
 (* oid: a small integer naming the Python object (identity shortcut `id(other) == id(self)`),
@@ -251,19 +254,19 @@ Definition M_array_equals (c : mcfg) (skipna : bool) (da db : dtype) (a b : list
   let both := map2 andb (if m_left_other c then na_b else na_a) (if m_right_other c then na_b else na_a) in
   all_true (if skipna then map2 orb eq both else eq).
 
-Definition M_index_equals (c : mcfg) (o : eopts) (a b : eindex) : bool :=
+Definition M_index_equals (cs : mcfgs) (o : eopts) (a b : eindex) : bool :=
   if ei_oid a =? ei_oid b then true
   else if o_class o && negb (ei_cls a =? ei_cls b) then false
   else if negb (Z.of_nat (length (ei_labels a)) =? Z.of_nat (length (ei_labels b))) then false
   else if o_name o && name_ne (ei_name a) (ei_name b) then false
   else if o_dtype o && negb (dtype_eqb (ei_dtype a) (ei_dtype b)) then false
-  else M_array_equals c (o_skipna o) (ei_dtype a) (ei_dtype b) (ei_labels a) (ei_labels b).
+  else M_array_equals (c_index cs) (o_skipna o) (ei_dtype a) (ei_dtype b) (ei_labels a) (ei_labels b).
 
 (* IndexLevel.equals: two stacks (head = top), a set of index-object pairs already found equal *)
 Definition pair_in (p : Z * Z) (s : list (Z * Z)) : bool :=
   existsb (fun q => (fst p =? fst q) && (snd p =? snd q)) s.
 
-Fixpoint M_level_walk (fuel : nat) (c : mcfg) (o : eopts) (seen : list (Z * Z))
+Fixpoint M_level_walk (fuel : nat) (c : mcfgs) (o : eopts) (seen : list (Z * Z))
                       (sa sb : list lvl) : res bool :=
   match fuel with
   | O => Err "OutOfFuel"
@@ -287,7 +290,7 @@ Fixpoint M_level_walk (fuel : nat) (c : mcfg) (o : eopts) (seen : list (Z * Z))
 
 Definition lvl_len (t : lvl) : Z := Z.of_nat (length (lvl_flat t)).
 
-Definition M_level_equals (c : mcfg) (o : eopts) (a b : lvl) : res bool :=
+Definition M_level_equals (c : mcfgs) (o : eopts) (a b : lvl) : res bool :=
   if negb (lvl_len a =? lvl_len b) then Ok false
   else if negb (lvl_depth (lvl_size a) a =? lvl_depth (lvl_size b) b) then Ok false
   else match lvl_targets a, lvl_targets b with
@@ -295,7 +298,7 @@ Definition M_level_equals (c : mcfg) (o : eopts) (a b : lvl) : res bool :=
        | _, _ => M_level_walk (S (lvl_size a + lvl_size b)) c o [] [a] [b]
        end.
 
-Definition M_hier_equals (c : mcfg) (o : eopts) (a b : ehier) : res bool :=
+Definition M_hier_equals (c : mcfgs) (o : eopts) (a b : ehier) : res bool :=
   if eh_oid a =? eh_oid b then Ok true
   else if o_class o && negb (eh_cls a =? eh_cls b) then Ok false
   else if negb ((lvl_len (eh_tree a) =? lvl_len (eh_tree b)) && (hier_depth a =? hier_depth b)) then Ok false
@@ -303,20 +306,20 @@ Definition M_hier_equals (c : mcfg) (o : eopts) (a b : ehier) : res bool :=
   else M_level_equals c o (eh_tree a) (eh_tree b).
 
 (* Index.equals(IndexHierarchy) and the converse fail the isinstance test *)
-Definition M_axis_equals (c : mcfg) (o : eopts) (a b : eaxis) : res bool :=
+Definition M_axis_equals (c : mcfgs) (o : eopts) (a b : eaxis) : res bool :=
   match a, b with
   | AFlat x, AFlat y => Ok (M_index_equals c o x y)
   | AHier x, AHier y => M_hier_equals c o x y
   | _, _ => Ok false
   end.
 
-Definition M_series_equals (c : mcfg) (o : eopts) (a b : eseries) : res bool :=
+Definition M_series_equals (c : mcfgs) (o : eopts) (a b : eseries) : res bool :=
   if es_oid a =? es_oid b then Ok true
   else if o_class o && negb (es_cls a =? es_cls b) then Ok false
   else if negb (Z.of_nat (length (es_values a)) =? Z.of_nat (length (es_values b))) then Ok false
   else if o_name o && name_ne (es_name a) (es_name b) then Ok false
   else if o_dtype o && negb (dtype_eqb (es_dtype a) (es_dtype b)) then Ok false
-  else if negb (M_array_equals c (o_skipna o) (es_dtype a) (es_dtype b) (es_values a) (es_values b)) then Ok false
+  else if negb (M_array_equals (c_series c) (o_skipna o) (es_dtype a) (es_dtype b) (es_values a) (es_values b)) then Ok false
   else M_axis_equals c o (es_index a) (es_index b).
 
 (* ------------------------------------------------------------------ M: TypeBlocks *)
@@ -416,20 +419,20 @@ Definition M_tb_equals (c : mcfg) (o : eopts) (a b : etb) : res bool :=
         Ok (fill_go (o_skipna o) mask 0 eqs)
     end.
 
-Definition M_frame_equals (c : mcfg) (o : eopts) (a b : eframe) : res bool :=
+Definition M_frame_equals (c : mcfgs) (o : eopts) (a b : eframe) : res bool :=
   if ef_oid a =? ef_oid b then Ok true
   else if o_class o && negb (ef_cls a =? ef_cls b) then Ok false
   else if negb ((tb_rows (ef_blocks a) =? tb_rows (ef_blocks b)) &&
                 (tb_ncols (ef_blocks a) =? tb_ncols (ef_blocks b))) then Ok false
   else if o_name o && name_ne (ef_name a) (ef_name b) then Ok false
   else
-    r <- M_tb_equals c o (ef_blocks a) (ef_blocks b) ;;
+    r <- M_tb_equals (c_tb c) o (ef_blocks a) (ef_blocks b) ;;
     if negb r then Ok false else
     r <- M_axis_equals c o (ef_index a) (ef_index b) ;;
     if negb r then Ok false else
     M_axis_equals c o (ef_columns a) (ef_columns b).
 
-Fixpoint M_frames_equal (c : mcfg) (o : eopts) (fa fb : list eframe) : res bool :=
+Fixpoint M_frames_equal (c : mcfgs) (o : eopts) (fa fb : list eframe) : res bool :=
   match fa, fb with
   | x :: xs, y :: ys =>
       r <- M_frame_equals c o x y ;;
@@ -437,7 +440,7 @@ Fixpoint M_frames_equal (c : mcfg) (o : eopts) (fa fb : list eframe) : res bool 
   | _, _ => Ok true                              (* zip stops at the shorter *)
   end.
 
-Definition M_bus_equals (c : mcfg) (o : eopts) (a b : ebus) : res bool :=
+Definition M_bus_equals (c : mcfgs) (o : eopts) (a b : ebus) : res bool :=
   if eb_oid a =? eb_oid b then Ok true
   else if o_class o && negb (eb_cls a =? eb_cls b) then Ok false
   else if negb (Z.of_nat (length (eb_frames a)) =? Z.of_nat (length (eb_frames b))) then Ok false
@@ -461,3 +464,43 @@ Definition M_frame_hash_key (a : eframe) : res (list val * list val) :=
 (* ------------------------------------------------------------------ comparison helpers for cases *)
 Definition rb_eqb (a b : res bool) : bool := res_eqb Bool.eqb a b.
 Definition vl_eqb (a b : list val) : bool := list_eqb val_eqb a b.
+
+(* ------------------------------------------------------------------ HE observation record *)
+Definition rz_eqb (a b : res Z) : bool := res_eqb Z.eqb a b.
+
+Record he_obs := mk_he_obs {
+  h_eq_ab : res bool; h_eq_ba : res bool; h_ne_ab : res bool; h_ne_ba : res bool;
+  h_plain : bool;                 (* every ==/!= answer was exactly a Python bool *)
+  h_hash_eq : res bool;           (* hash(a) == hash(b) *)
+  h_set_len : res Z;              (* len({a, b}) *)
+  h_in_dict : res bool }.         (* b in {a: 0} *)
+
+(* what the model predicts for the observation: == is equals with the HE options, != its
+   negation, the hash a function of the key (equal keys => equal hashes; unequal keys: not
+   predicted), CPython's set/dict probe = same hash and stored == probe *)
+Definition M_he_check {K} (keqb : K -> K -> bool) (eq_ab eq_ba : res bool) (ka kb : res K) (ob : he_obs) : bool :=
+  rb_eqb eq_ab (h_eq_ab ob) && rb_eqb eq_ba (h_eq_ba ob) &&
+  rb_eqb (res_map negb eq_ab) (h_ne_ab ob) && rb_eqb (res_map negb eq_ba) (h_ne_ba ob) &&
+  match ka, kb with
+  | Ok x, Ok y =>
+      match h_hash_eq ob with
+      | Ok he =>
+          implb (keqb x y) he &&
+          rz_eqb (h_set_len ob) (if he then res_map (fun e : bool => if e then 1 else 2) eq_ab else Ok 2) &&
+          rb_eqb (h_in_dict ob) (if he then eq_ab else Ok false)
+      | Err _ => false
+      end
+  | Err e, _ | _, Err e =>
+      rb_eqb (h_hash_eq ob) (Err e) && rz_eqb (h_set_len ob) (Err e) && rb_eqb (h_in_dict ob) (Err e)
+  end.
+
+(* what the property demands of the observation *)
+Definition S_he_check (seq_ab seq_ba : bool) (ob : he_obs) : bool :=
+  rb_eqb (Ok seq_ab) (h_eq_ab ob) && rb_eqb (Ok seq_ba) (h_eq_ba ob) &&
+  rb_eqb (Ok (negb seq_ab)) (h_ne_ab ob) && rb_eqb (Ok (negb seq_ba)) (h_ne_ba ob) &&
+  h_plain ob &&
+  match h_hash_eq ob with Ok he => implb seq_ab he | Err _ => false end &&
+  rz_eqb (h_set_len ob) (Ok (if seq_ab then 1 else 2)) &&
+  rb_eqb (h_in_dict ob) (Ok seq_ab).
+
+Definition key2_eqb (a b : list val * list val) : bool := vl_eqb (fst a) (fst b) && vl_eqb (snd a) (snd b).
